@@ -11,7 +11,9 @@
 //! written against `Empty` and lifted with `ContractWrapper::new_with_empty` / `with_*_empty` -- from ANY of its
 //! entry points: instantiate (`instantiate_contract`), execute, migrate (`migrate_contract`, admin = a user
 //! distinct from the contract), sudo (`wasm_sudo`) and reply -- inline queries first, then sub-messages with
-//! or without reply -- first in the transaction or after an earlier write.  The sender a module must record
+//! reply_on in {Never, Success, Error, Always} and a reply handler that returns Ok or Err (the reply entry point
+//! records its INVOCATION out of band, pseudo-slot 9) -- first in the transaction or after an earlier write.
+//! The sender a module must record
 //! is always the EMITTING contract's address (predicted on a twin App for a contract that is being
 //! instantiated).  Wasm messages WITH FUNDS: a user / a contract executes or instantiates a real callee with
 //! funds from {[], [5 x], [0 x], [0 x; 0 y], [0 x; 3 y]}; the bank slot (recording bank scripted ok / err, or the
@@ -52,6 +54,7 @@ const QSLOT: [usize; 8] = [0, 1, 2, 3, 4, 5, 7, 7];
 const BEH: [&str; 5] = ["Accepting", "Failing", "RecOk", "RecErr", "Keeper"];
 const ENTRIES: [&str; 5] = ["Execute", "Instantiate", "Migrate", "Sudo", "Reply"];
 const FCLASS: [&str; 5] = ["FEmpty", "FPos", "FZero1", "FZero2", "FZeroPos"];
+const MODES: [&str; 4] = ["RNever", "RSuccess", "RError", "RAlways"];
 const ACCEPTING: u8 = 0;
 const FAILING: u8 = 1;
 const REC_OK: u8 = 2;
@@ -59,6 +62,8 @@ const REC_ERR: u8 = 3;
 /// bank slot only: the crate's own BankKeeper
 const KEEPER: u8 = 4;
 const CALLEE_SLOT: u64 = 8;
+/// pseudo-slot of the out-of-band record the reply entry point makes when it is invoked
+const REPLY_SLOT: u64 = 9;
 const RAN_PREFIX: &[u8] = b"c17ran/";
 const TRIGGER_ID: u64 = 9999;
 const PROBE_ADDR: &str = "c17-probe-target";
@@ -115,6 +120,13 @@ fn callee_ran(sender: &Addr, payload: u64, height: u64) {
     CUR.with(|c| {
         if let Some(ctl) = c.borrow().as_ref() {
             ctl.log.borrow_mut().push(Entry { slot: CALLEE_SLOT, sender: digest(sender.as_str()), payload, height });
+        }
+    });
+}
+fn reply_invoked(contract: &Addr, payload: u64, ok: bool, height: u64) {
+    CUR.with(|c| {
+        if let Some(ctl) = c.borrow().as_ref() {
+            ctl.log.borrow_mut().push(Entry { slot: REPLY_SLOT, sender: digest(contract.as_str()), payload: 2 * payload + ok as u64, height });
         }
     });
 }
@@ -639,9 +651,19 @@ pub struct Probe {
     /// index into MKINDS / QKINDS (ignored for a funded wasm message)
     pub kind: usize,
     pub n: u64,
+    /// queries: the contract records the error instead of failing
     pub catch: bool,
     #[serde(default)]
     pub funded: Option<Funded>,
+    /// sub-messages: reply_on (index into MODES)
+    #[serde(default)]
+    pub mode: u8,
+    /// sub-messages: the reply handler returns Ok (true) / Err (false)
+    #[serde(default = "yes")]
+    pub hok: bool,
+}
+fn yes() -> bool {
+    true
 }
 /// a probe as handed to the contract: the callee of a funded message resolved
 #[derive(Serialize, Deserialize, Clone, Debug, PartialEq)]
@@ -685,11 +707,15 @@ fn make_funded<C: Cust>(st: &Step, f: &Funded) -> CosmosMsg<C> {
         CosmosMsg::Wasm(WasmMsg::Execute { contract_addr: st.callee.clone(), msg, funds })
     }
 }
-fn step_msg<C: Cust>(st: &Step) -> CosmosMsg<C> {
+/// (message, the digest the emitter puts into SubMsg.payload = the probe's payload digest)
+fn step_msg<C: Cust>(st: &Step) -> (CosmosMsg<C>, u64) {
     match &st.probe.funded {
-        Some(f) => make_funded::<C>(st, f),
-        None => make_msg::<C>(st.probe.kind, st.probe.n).0,
+        Some(f) => (make_funded::<C>(st, f), send_digest(&st.callee, f.fclass)),
+        None => make_msg::<C>(st.probe.kind, st.probe.n),
     }
+}
+fn hok_key(i: u64) -> Vec<u8> {
+    format!("hok/{:04}", i).into_bytes()
 }
 
 /// the body shared by all entry points: earlier write, inline queries in program order, then the sub-messages
@@ -711,12 +737,19 @@ fn run_prog<C: Cust, Q: CustQ>(deps: DepsMut<Q>, prog: &Prog) -> StdResult<Respo
     }
     let mut resp = Response::new();
     for st in prog.steps.iter().filter(|s| s.probe.is_msg) {
+        let (msg, d) = step_msg::<C>(st);
+        deps.storage.set(&hok_key(st.idx), if st.probe.hok { b"1" } else { b"0" });
         resp = resp.add_submessage(SubMsg {
             id: st.idx,
-            payload: Binary::default(),
-            msg: step_msg::<C>(st),
+            payload: data_of(d),
+            msg,
             gas_limit: None,
-            reply_on: if st.probe.catch { ReplyOn::Always } else { ReplyOn::Never },
+            reply_on: match st.probe.mode {
+                0 => ReplyOn::Never,
+                1 => ReplyOn::Success,
+                2 => ReplyOn::Error,
+                _ => ReplyOn::Always,
+            },
         });
     }
     Ok(resp)
@@ -753,7 +786,7 @@ fn emitter_migrate<C: Cust, Q: CustQ>(deps: DepsMut<Q>, _e: Env, prog: Prog) -> 
 fn emitter_sudo<C: Cust, Q: CustQ>(deps: DepsMut<Q>, _e: Env, prog: Prog) -> StdResult<Response<C>> {
     run_prog::<C, Q>(deps, &prog)
 }
-fn emitter_reply<C: Cust, Q: CustQ>(deps: DepsMut<Q>, _e: Env, reply: Reply) -> StdResult<Response<C>> {
+fn emitter_reply<C: Cust, Q: CustQ>(deps: DepsMut<Q>, env: Env, reply: Reply) -> StdResult<Response<C>> {
     if reply.id == TRIGGER_ID {
         let raw = deps.storage.get(b"reply_prog").ok_or_else(|| StdError::generic_err("c17: no stored program"))?;
         let prog: Prog = cosmwasm_std::from_json(raw)?;
@@ -763,7 +796,12 @@ fn emitter_reply<C: Cust, Q: CustQ>(deps: DepsMut<Q>, _e: Env, reply: Reply) -> 
         SubMsgResult::Ok(resp) => Ok(parse_data(&resp.data)),
         SubMsgResult::Err(_) => Err(()),
     };
+    // out of band: the reply entry point was INVOKED, with this payload and this kind of result
+    reply_invoked(&env.contract.address, parse_data(&Some(reply.payload.clone())).unwrap_or(u64::MAX >> 18), r.is_ok(), env.block.height);
     deps.storage.set(&seen_key(reply.id), &seen_val(&r));
+    if deps.storage.get(&hok_key(reply.id)).as_deref() == Some(b"0") {
+        return Err(StdError::generic_err("c17: scripted failure of the reply handler"));
+    }
     Ok(Response::new())
 }
 fn emitter_query<Q: CustQ>(_d: Deps<Q>, _e: Env, _m: Empty) -> StdResult<Binary> {
@@ -904,17 +942,18 @@ fn run_case(inp: &Input) -> Ran {
                     st.callee = next_new.next().unwrap().to_string();
                 }
                 format!(
-                    "PFunded {} {} {} {} {}",
+                    "PFunded {} {} {} {} {} {}",
                     coq_bool(f.inst),
                     FCLASS[f.fclass as usize],
                     send_digest(&st.callee, f.fclass),
                     callee_digest(p.n, &funds_of(f.fclass)),
-                    coq_bool(p.catch)
+                    MODES[p.mode as usize],
+                    coq_bool(p.hok)
                 )
             }
             (None, true) => {
                 let d = if empty_typed { make_msg::<Empty>(p.kind, p.n).1 } else { make_msg::<CMsg>(p.kind, p.n).1 };
-                format!("PMsg M{} {} {}", MKINDS[p.kind], d, coq_bool(p.catch))
+                format!("PMsg M{} {} {} {}", MKINDS[p.kind], d, MODES[p.mode as usize], coq_bool(p.hok))
             }
             (None, false) => {
                 let d = if empty_typed { make_query::<Empty>(p.kind, p.n).1 } else { make_query::<CQuery>(p.kind, p.n).1 };
@@ -936,7 +975,7 @@ fn run_case(inp: &Input) -> Ran {
                 msgs.push(CosmosMsg::Wasm(WasmMsg::Execute { contract_addr: emitter.to_string(), msg: to_json_binary(&Prog { pre: true, ..Prog::default() }).unwrap(), funds: vec![] }));
             }
             for st in &steps {
-                msgs.push(step_msg::<CMsg>(st));
+                msgs.push(step_msg::<CMsg>(st).0);
             }
             let skip = if inp.pre { 1 } else { 0 };
             let r = catch(|| app.execute_multi(user.clone(), msgs));
@@ -1064,7 +1103,11 @@ fn emit(out: &mut Out, inp: &Input, family: &str) {
         };
         out.stat(&name, 1);
         out.stat(&format!("module_{}", BEH[inp.cfg[slot] as usize]), 1);
-        out.stat(if p.catch { "caught" } else { "uncaught" }, 1);
+        if p.is_msg {
+            out.stat(&format!("reply_on_{}_{}", MODES[p.mode as usize], if p.hok { "handler_ok" } else { "handler_err" }), 1);
+        } else {
+            out.stat(if p.catch { "query_caught" } else { "query_uncaught" }, 1);
+        }
     }
     out.stat(
         match o.tx {
@@ -1087,14 +1130,21 @@ fn emit(out: &mut Out, inp: &Input, family: &str) {
 fn all_rec_ok() -> [u8; 8] {
     [REC_OK; 8]
 }
+/// catch = reply_on Always with a handler that returns Ok; otherwise reply_on Never
 fn msg(kind: usize, n: u64, catch: bool) -> Probe {
-    Probe { is_msg: true, kind, n, catch, funded: None }
+    msg_mode(kind, n, if catch { 3 } else { 0 }, true)
+}
+fn msg_mode(kind: usize, n: u64, mode: u8, hok: bool) -> Probe {
+    Probe { is_msg: true, kind, n, catch: false, funded: None, mode, hok }
 }
 fn query(kind: usize, n: u64, catch: bool) -> Probe {
-    Probe { is_msg: false, kind, n, catch, funded: None }
+    Probe { is_msg: false, kind, n, catch, funded: None, mode: 0, hok: true }
 }
 fn funded(inst: bool, fclass: u8, n: u64, catch: bool) -> Probe {
-    Probe { is_msg: true, kind: 0, n, catch, funded: Some(Funded { inst, fclass }) }
+    funded_mode(inst, fclass, n, if catch { 3 } else { 0 }, true)
+}
+fn funded_mode(inst: bool, fclass: u8, n: u64, mode: u8, hok: bool) -> Probe {
+    Probe { is_msg: true, kind: 0, n, catch: false, funded: Some(Funded { inst, fclass }), mode, hok }
 }
 
 pub fn run(args: &Args) {
@@ -1102,7 +1152,12 @@ pub fn run(args: &Args) {
     if let Some(p) = &args.replay {
         let v: serde_json::Value = serde_json::from_slice(&std::fs::read(p).unwrap()).unwrap();
         let case = v.get("case").unwrap_or(&v);
-        let inp: Input = serde_json::from_value(case["input"].clone()).unwrap();
+        let mut inp: Input = serde_json::from_value(case["input"].clone()).unwrap();
+        for p in inp.probes.iter_mut() {
+            if p.is_msg && p.catch && p.mode == 0 {
+                p.mode = 3; // replay files written before the reply modes: catch = Always
+            }
+        }
         emit(&mut out, &inp, "replay");
         out.finish(100, "replay");
         return;
@@ -1196,6 +1251,37 @@ pub fn run(args: &Args) {
         }
     }
 
+    // 3b. the reply table: every message kind from the execute entry point of both flavours x the four reply_on
+    //     modes x recording module ok / err x reply handler returns Ok / Err; the same table, one kind each, from
+    //     the other entry points.  The reply entry point records its invocation out of band.
+    for origin in ["SubCustom", "SubEmpty"] {
+        for kind in 0..9 {
+            for mode in 0..4u8 {
+                for beh in [REC_OK, REC_ERR] {
+                    for hok in [true, false] {
+                        let mut cfg = all_rec_ok();
+                        cfg[MSLOT[kind]] = beh;
+                        let n = 1 + rng.below(1 << 20);
+                        emit(&mut out, &Input { cfg, origin: origin.into(), entry: exec(), pre: true, height: next_height(&mut rng), probes: vec![msg_mode(kind, n, mode, hok)] }, "reply_table");
+                    }
+                }
+            }
+        }
+        for (e, entry) in ["Instantiate", "Migrate", "Sudo", "Reply"].iter().enumerate() {
+            for mode in 0..4u8 {
+                for beh in [REC_OK, REC_ERR] {
+                    for hok in [true, false] {
+                        let kind = [1, 3, 5, 6, 7, 8, 4, 0][(e * 2 + mode as usize + hok as usize) % 8];
+                        let mut cfg = all_rec_ok();
+                        cfg[MSLOT[kind]] = beh;
+                        let n = 1 + rng.below(1 << 20);
+                        emit(&mut out, &Input { cfg, origin: origin.into(), entry: entry.to_string(), pre: true, height: next_height(&mut rng), probes: vec![msg_mode(kind, n, mode, hok)] }, "reply_table");
+                    }
+                }
+            }
+        }
+    }
+
     // 4. wasm messages with funds: a user / a contract (every entry point, both flavours) executes / instantiates
     //    a callee with funds from {[], [5 x], [0 x], [0 x; 0 y], [0 x; 3 y]}; bank slot = recording bank ok / err, or
     //    the crate's BankKeeper (payer funded by the harness; not for a payer that is itself being instantiated)
@@ -1251,7 +1337,8 @@ pub fn run(args: &Args) {
             if is_msg && r.chance(1, 4) {
                 let inst = !have_inst && r.chance(1, 3);
                 have_inst |= inst;
-                msgs.push(funded(inst, r.below(5) as u8, 1 + r.below(1 << 20), origin != "Top" && r.chance(1, 2)));
+                let (mode, hok) = if origin == "Top" { (0, true) } else { (r.below(4) as u8, r.chance(5, 6)) };
+                msgs.push(funded_mode(inst, r.below(5) as u8, 1 + r.below(1 << 20), mode, hok));
             } else if is_msg {
                 let mut kind = r.below(9) as usize;
                 if origin == "SubEmpty" && kind == 2 && r.chance(9, 10) {
@@ -1260,7 +1347,8 @@ pub fn run(args: &Args) {
                 if keeper && kind == 1 {
                     kind = 5; // plain bank probes are not sent to the keeper
                 }
-                msgs.push(msg(kind, 1 + r.below(1 << 20), origin != "Top" && r.chance(1, 2)));
+                let (mode, hok) = if origin == "Top" { (0, true) } else { (r.below(4) as u8, r.chance(5, 6)) };
+                msgs.push(msg_mode(kind, 1 + r.below(1 << 20), mode, hok));
             } else {
                 let mut kind = r.below(8) as usize;
                 if kind == 4 && r.chance(4, 5) {
@@ -1277,6 +1365,6 @@ pub fn run(args: &Args) {
     }
     out.finish(
         150,
-        "cases = 3 known-finding witnesses + 3 late-failure programs + the exhaustive single-probe family (9 message kinds x {top-level, custom-typed contract, Empty-typed contract lifted by new_with_empty} x 4 module behaviours x {first, after an earlier write} x {reply, no reply}; 8 query kinds x {top-level querier, query from inside either contract} x 4 behaviours x position x {error caught, not caught}) + every message / query kind returned from the instantiate, migrate, sudo and reply entry points of both contract flavours (drivers instantiate_contract, migrate_contract with a separate admin, wasm_sudo, a reply-level emitter) + funded WasmMsg::Execute / Instantiate (funds [], [5x], [0x], [0x;0y], [0x;3y]) from a user and from every entry point of both flavours against a recording bank (ok / err) and the crate's BankKeeper + generated multi-probe programs over random configurations, origins and entry points; distinct by SHA-256 of the input; non-trivial = at least one probe",
+        "cases = 3 known-finding witnesses + 3 late-failure programs + the exhaustive single-probe family (9 message kinds x {top-level, custom-typed contract, Empty-typed contract lifted by new_with_empty} x 4 module behaviours x {first, after an earlier write} x {reply_on Always, Never}; 8 query kinds x {top-level querier, query from inside either contract} x 4 behaviours x position x {error caught, not caught}) + every message / query kind returned from the instantiate, migrate, sudo and reply entry points of both contract flavours (drivers instantiate_contract, migrate_contract with a separate admin, wasm_sudo, a reply-level emitter) + the reply table (every message kind x reply_on {Never, Success, Error, Always} x module ok / err x reply handler returns Ok / Err, from every entry point; the reply entry point records its invocation out of band) + funded WasmMsg::Execute / Instantiate (funds [], [5x], [0x], [0x;0y], [0x;3y]) from a user and from every entry point of both flavours against a recording bank (ok / err) and the crate's BankKeeper + generated multi-probe programs over random configurations, origins and entry points; distinct by SHA-256 of the input; non-trivial = at least one probe",
     );
 }
